@@ -210,6 +210,15 @@ def sample_columns(width_groups, nsamples, rng: random.Random, corner=True):
     return cols, samples, (1 << ns) - 1, ns
 
 
+def fmt_tt(x) -> str:
+    """Printable form of (lists of) truth-table integers of any width (decimal conversion of very wide ints is refused
+    by the interpreter)."""
+    if isinstance(x, (list, tuple)):
+        return '[' + ', '.join(fmt_tt(v) for v in x) + ']'
+    h = hex(x)
+    return h if len(h) <= 70 else '%s...%s(%d hex digits)' % (h[:40], h[-16:], len(h) - 2)
+
+
 def structural_hash(net: Net) -> str:
     """Relabel-invariant hash of the netlist (interface order + DAG structure).
     Operand order kept for asymmetric types, sorted for symmetric ones."""
